@@ -40,15 +40,20 @@ def main() -> None:
     caught = 0
     for n in names:
         rc, rules = res[n]
-        status = "CAUGHT" if rc == 1 else ("missed" if rc == 0 else f"rc={rc}")
-        caught += rc == 1
+        mp0 = json.load(open(os.path.join(SEEDED, n, "meta.json")))
+        if mp0.get("expect") == "silent":
+            status = "silent-ok" if rc == 0 else "FALSE-ALARM"
+            caught += rc == 0
+        else:
+            status = "CAUGHT" if rc == 1 else ("missed" if rc == 0 else f"rc={rc}")
+            caught += rc == 1
         print(f"{n:8s} {status:7s} {', '.join(rules)}")
         mp = os.path.join(SEEDED, n, "meta.json")
         m = json.load(open(mp))
         m["detected_by"] = rules if rc == 1 else []
         m["check_exit"] = rc
         json.dump(m, open(mp, "w"), indent=1)
-    print(f"{caught}/{len(names)} caught")
+    print(f"{caught}/{len(names)} as expected (caught, or silent for neutralised seeds)")
 
 
 if __name__ == "__main__":
